@@ -85,18 +85,12 @@ def colourEntry (four : Bool) (q0 q1 k : Nat) : Rgb × Option Nat :=
 
 /-- Entry `k` (0..7) of the BC3/BC4/BC5 single-channel palette with endpoints `a0 a1` -/
 def alphaEntry (a0 a1 k : Nat) : Nat :=
-  if a0 > a1 then
-    match k with
-    | 0 => a0
-    | 1 => a1
-    | k => ((8 - k) * a0 + (k - 1) * a1) / 7
-  else
-    match k with
-    | 0 => a0
-    | 1 => a1
-    | 6 => 0
-    | 7 => 255
-    | k => ((6 - k) * a0 + (k - 1) * a1) / 5
+  if k = 0 then a0
+  else if k = 1 then a1
+  else if a0 > a1 then ((8 - k) * a0 + (k - 1) * a1) / 7    -- six interpolants, k = 2..7
+  else if k = 6 then 0
+  else if k = 7 then 255
+  else ((6 - k) * a0 + (k - 1) * a1) / 5                      -- four interpolants, k = 2..5
 
 /-- selector of pixel `i` in a little-endian field of `bits`-bit selectors, pixel 0 in the lowest bits -/
 def selector (bits : Nat) (field : Nat) (i : Nat) : Nat := field / (2 ^ bits) ^ i % 2 ^ bits
